@@ -653,6 +653,25 @@ theorem failed_ops_of_history_with_setup_are_identity : ∀ (cs : List Cmd) (s :
     unfold runCmds FailedOpsAreIdentity
     exact failed_ops_of_history_with_setup_are_identity cs _
 
+/-! ### PropertyList of ModifyInstance -/
+
+/-- with a PropertyList only properties named in it reach the provider -/
+theorem propertyList_limits_the_update (cc : ClassRec) (stored : InstRec) (l : List Name) (props out : List PropV)
+    (h : applyPropertyList cc stored (some l) props = .ok out) : ∀ p ∈ out, nmem p.name l = true := by
+  unfold applyPropertyList at h
+  simp only at h
+  cases hd : addDefaults cc stored (dedupNames l []) props with
+  | error e => rw [hd] at h; cases h
+  | ok ps =>
+    rw [hd] at h
+    cases h
+    intro p hp
+    exact (List.mem_filter.mp hp).2
+
+/-- without a PropertyList the request is passed on unchanged -/
+theorem propertyList_none_is_identity (cc : ClassRec) (stored : InstRec) (props : List PropV) :
+    applyPropertyList cc stored none props = .ok props := rfl
+
 /-! ### what the fixes repair: negation witnesses for the original code, and the partial statements that held -/
 
 /-- "the call raised and the repository differs" -/
@@ -859,8 +878,33 @@ example : step wS2 (.createInstance wInterop wNsInstBad) = (wS2, some (.cimError
 example : (step wS2 (.createInstance wInterop wNsInstOk)).2 = none ∧
     ((step wS2 (.createInstance wInterop wNsInstOk)).1.nss.map (·.name)) = [wInterop, "root/new".toList] := by
   decide +kernel
--- ModifyInstance with a PropertyList naming a key property that the modified instance lacks is rejected, unchanged
-example : (step wS1 (.createInstance wNs wInst)).2 = none := by decide +kernel
+-- ModifyInstance with a PropertyList
+def wProp3 (n ty : String) (key : Bool) : PropRec :=
+  { d := { name := n.toList, ty := ty.toList, isArr := false, ref := none, quals := if key then [wKeyQ] else [] },
+    origin := "P3".toList, propagated := false }
+def wPlain3 : ClassRec :=
+  { name := "P3".toList, super := none, quals := [], props := [wProp3 "k" "string" true, wProp3 "v" "uint32" false,
+                                                              wProp3 "t" "string" false] }
+def wIntProp (n : String) (v : Int) : PropV := ⟨n.toList, "uint32".toList, false, .sc (.int v)⟩
+def wS4 : State :=
+  { nss := [{ name := wNs, classes := [wPlain3],
+              insts := [mkInstRec wNs "P3".toList [("k".toList, .sc (.str "a".toList))] "P3".toList
+                          [wStr "k" "a", wIntProp "v" 1]] }] }
+def wPath4 : Path := { cls := "P3".toList, ns := none, keys := [("k".toList, .sc (.str "a".toList))] }
+def propsAfter (r : State × Option PyExc) : List (List PropV) := r.1.nss.flatMap (fun n => n.insts.map (·.props))
+-- only the listed property is written (t is not), names compare case-insensitively
+example : (step wS4 (.modifyInstance wNs wPath4 { cls := "P3".toList, props := [wIntProp "v" 2, wStr "t" "x"] }
+    (some ["V".toList]))).2 = none ∧
+    propsAfter (step wS4 (.modifyInstance wNs wPath4 { cls := "P3".toList, props := [wIntProp "v" 2, wStr "t" "x"] }
+    (some ["V".toList]))) = [[wStr "k" "a", wIntProp "v" 2]] := by decide +kernel
+-- a listed property the request lacks is set to the class default (NULL)
+example : propsAfter (step wS4 (.modifyInstance wNs wPath4 { cls := "P3".toList, props := [] } (some ["t".toList])))
+    = [[wStr "k" "a", wIntProp "v" 1, ⟨"t".toList, "string".toList, false, .null⟩]] := by decide +kernel
+-- a key property cannot be defaulted, an unknown name is rejected: CIM_ERR_INVALID_PARAMETER, nothing changed
+example : step wS4 (.modifyInstance wNs wPath4 { cls := "P3".toList, props := [wIntProp "v" 2] } (some ["k".toList, "v".toList]))
+    = (wS4, some (.cimError 4)) := by decide +kernel
+example : step wS4 (.modifyInstance wNs wPath4 { cls := "P3".toList, props := [wIntProp "v" 2] } (some ["nosuch".toList]))
+    = (wS4, some (.cimError 4)) := by decide +kernel
 
 /-! ### the source skeletons (Generated/Atomic.lean, re-extracted from the repo on every run) -/
 
